@@ -106,12 +106,56 @@ ResultOf(stat) ==
   IF stat /= "none" THEN stat ELSE IF Variant = "status_default_ptol" THEN "Ptol" ELSE "MaxIters"
 
 ---------------------------------------------------------------------------
+\* The state machine below keeps the strategy state in INTEGER EXPONENTS so that TLC explores it quickly:
+\*   Ceres :  delta = 10^4 * 3^e3 * 2^(-e2) * G^(-eg),  reduce = 2^k      (G = CeresDen(1/500), a "generic" divisor)
+\*   Disney:  delta = 10^3 * 10^(-e2)
+\* Conc maps an abstract state to the rational state of StratStep; AbsStep is StratStep on the abstract state for
+\* the representatives of rho used by the environment.  StepCommutes (an ASSUME, evaluated by TLC at start-up on a
+\* box of abstract states x all representatives) checks  Conc(AbsStep(a, rho)) = StratStep(Conc(a), rho).
+RhoGeneric == XFin(RFrac(1, 500))
+GenDen == CeresDen(RhoGeneric)
+RECURSIVE RPowZ(_, _)
+RPowZ(b, n) == IF n = 0 THEN R1 ELSE IF n > 0 THEN RMul(b, RPowZ(b, n - 1)) ELSE RDiv(RPowZ(b, n + 1), b)
+
+AbsInit(kind) == [kind |-> kind, e3 |-> 0, e2 |-> 0, eg |-> 0, k |-> 1]
+Conc(a) ==
+  IF a.kind = "ceres"
+  THEN [kind |-> "ceres",
+        delta |-> RMul(RMul(RFromInt(10000), RPowZ(RFromInt(3), a.e3)), RMul(RPowZ(R2, -a.e2), RPowZ(GenDen, -a.eg))),
+        reduce |-> RPowZ(R2, a.k)]
+  ELSE [kind |-> "disney", delta |-> RMul(RFromInt(1000), RPowZ(RFromInt(10), -a.e2)), reduce |-> R2]
+
+\* which divisor regime of Ceres a representative falls in (decided with the rational operators)
+CeresRegime(rho) ==
+  IF ~XGt(rho, RhoThreshold("ceres")) THEN "reject"
+  ELSE IF REq(CeresDen(rho), OneThird) THEN "third"
+  ELSE IF REq(CeresDen(rho), R1) THEN "one"
+  ELSE IF REq(CeresDen(rho), RFrac(9, 8)) THEN "nine8"
+  ELSE IF REq(CeresDen(rho), GenDen) THEN "generic"
+  ELSE IF REq(CeresDen(rho), R2) THEN "two"           \* only reachable by the model mutant rho > -1 (rho = 0)
+  ELSE IF REq(CeresDen(rho), RFromInt(9)) THEN "nine" \* model mutant only (rho = -1/2)
+  ELSE "unknown"
+
+AbsStepRegime(a, reg, taken) ==
+  IF a.kind = "ceres" THEN
+    LET kk == IF Variant = "reduce_not_reset" THEN a.k ELSE 1
+    IN CASE reg = "reject"  -> [take |-> FALSE, s |-> [a EXCEPT !.e2 = @ + a.k, !.k = @ + 1]]
+         [] reg = "third"   -> [take |-> TRUE, s |-> [a EXCEPT !.e3 = @ + 1, !.k = kk]]
+         [] reg = "one"     -> [take |-> TRUE, s |-> [a EXCEPT !.k = kk]]
+         [] reg = "nine8"   -> [take |-> TRUE, s |-> [a EXCEPT !.e3 = @ - 2, !.e2 = @ - 3, !.k = kk]]
+         [] reg = "generic" -> [take |-> TRUE, s |-> [a EXCEPT !.eg = @ + 1, !.k = kk]]
+         [] reg = "two"     -> [take |-> TRUE, s |-> [a EXCEPT !.e2 = @ + 1, !.k = kk]]
+         [] reg = "nine"    -> [take |-> TRUE, s |-> [a EXCEPT !.e3 = @ - 2, !.k = kk]]
+  ELSE IF taken THEN [take |-> TRUE, s |-> [a EXCEPT !.e2 = 0]]
+       ELSE [take |-> FALSE, s |-> [a EXCEPT !.e2 = @ + 1]]
+AbsStep(a, rho) == AbsStepRegime(a, CeresRegime(rho), XGt(rho, RhoThreshold("disney")))
+---------------------------------------------------------------------------
 \* abstract environment
 PredClasses == {"neg", "zero", "pos", "nan"}
 \* representatives of rho: below / at / above the Ceres threshold, the three Ceres divisor regimes
 \* (9/8 at 1/4, 1 at 1/2, clamp 1/3 at 1 and beyond), beyond the Ftol limit 2, negative, zero
-PosReps == {XFin(RFrac(1, 2000)), XFin(C1em3), XFin(RFrac(1, 4)), XFin(RHalf), XFin(R1), XFin(RFromInt(3))}
-NegReps == {XFin(RFromInt(-1)), XFin(RFrac(-1, 2))}
+PosReps == {XFin(RFrac(1, 2000)), XFin(C1em3), RhoGeneric, XFin(RFrac(1, 4)), XFin(RHalf), XFin(R1), XFin(RFromInt(3))}
+NegReps == {XFin(RFromInt(-2)), XFin(RFrac(-1, 2))}
 AllReps == PosReps \cup NegReps \cup {XFin(R0), XNaN, XPInf, XNInf}
 
 \* sign class of actu_red = 1 - (cost(xp)/r_n)^2 given the cost levels (r_n /= 0):
@@ -141,6 +185,20 @@ Outcomes(c) ==
 \* constant table (TLC evaluates a zero-arity constant definition once)
 OutcomeTable == [c \in 0..Levels |-> Outcomes(c)]
 OutcomeByRho == [c \in 0..Levels |-> [r \in AllReps |-> {o \in OutcomeTable[c] : o.rho = r}]]
+RegimeOf == [r \in AllReps |-> CeresRegime(r)]
+DisneyTakes == [r \in AllReps |-> XGt(r, RhoThreshold("disney"))]
+
+\* the abstract strategy step is the coded one (checked by TLC at start-up on a box of states x all representatives)
+AbsBox == {[kind |-> kd, e3 |-> a, e2 |-> b, eg |-> g, k |-> kk] :
+             kd \in Kinds, a \in {-2, 0, 1}, b \in {-3, 0, 2, 5}, g \in {0, 1}, kk \in {1, 2, 4}}
+SameStrat(s, t) == s.kind = t.kind /\ REq(s.delta, t.delta) /\ (s.kind = "ceres" => REq(s.reduce, t.reduce))
+StepCommutes ==
+  /\ \A r \in AllReps : RegimeOf[r] /= "unknown"
+  /\ \A kd \in Kinds : SameStrat(Conc(AbsInit(kd)), StratInit(kd))
+  /\ \A a \in AbsBox : \A r \in AllReps :
+        LET u == AbsStep(a, r)  v == StratStep(Conc(a), r)
+        IN u.take = v.take /\ SameStrat(Conc(u.s), v.s)
+ASSUME StepCommutes
 
 ---------------------------------------------------------------------------
 VARIABLES
@@ -159,7 +217,7 @@ vars == <<run, pc, iter, status, strat, fresh, x, cost, ncb, cbX, cbCost, mono, 
 
 Init ==
   /\ run = 1 /\ pc = "start" /\ iter = 0 /\ status = "none"
-  /\ \E k \in Kinds : strat = StratInit(k) /\ exitStrat = StratInit(k)
+  /\ \E k \in Kinds : strat = AbsInit(k) /\ exitStrat = AbsInit(k)
   /\ fresh = TRUE
   /\ x = 0 /\ cost \in 0..Levels
   /\ ncb = 0 /\ cbX = -1 /\ cbCost = 0 /\ mono = TRUE /\ nacc = 0 /\ fired = FALSE /\ result = "-"
@@ -188,7 +246,7 @@ IterateWith(upd, os) ==
           /\ fired' = (fired \/ st2 /= "none")
 Iterate ==
   /\ pc = "loop" /\ LoopContinues(iter, MaxIter, status)
-  /\ \E rho \in AllReps : IterateWith(StratStep(strat, rho), OutcomeByRho[cost][rho])
+  /\ \E rho \in AllReps : IterateWith(AbsStepRegime(strat, RegimeOf[rho], DisneyTakes[rho]), OutcomeByRho[cost][rho])
   /\ iter' = iter + 1
   /\ UNCHANGED <<run, pc, fresh, result, exitStrat>>
 
@@ -203,7 +261,7 @@ NextRun ==
   /\ pc = "exit"
   /\ IF run < Runs
      THEN /\ run' = run + 1 /\ pc' = "start" /\ iter' = 0 /\ status' = "none"
-          /\ \E f \in BOOLEAN : fresh' = f /\ strat' = IF f THEN StratInit(strat.kind) ELSE strat
+          /\ \E f \in BOOLEAN : fresh' = f /\ strat' = IF f THEN AbsInit(strat.kind) ELSE strat
           /\ x' = 0 /\ cost' \in 0..Levels
           /\ ncb' = 0 /\ cbX' = -1 /\ cbCost' = 0 /\ mono' = TRUE /\ nacc' = 0 /\ fired' = FALSE /\ result' = "-"
           /\ UNCHANGED exitStrat
@@ -238,12 +296,12 @@ Monotone == mono
 
 \* C09.strategy: radius positive, reduce factor a power of two >= 2, reset to 2 by every successful Ceres step
 StratInv ==
-  /\ RSign(strat.delta) > 0
-  /\ RLeq(R2, strat.reduce)
+  /\ strat.k >= 1 /\ strat.eg >= 0
+  /\ strat.kind = "disney" => (strat.e2 >= 0 /\ strat.e3 = 0 /\ strat.eg = 0 /\ strat.k = 1)
 Persist ==
   (pc \in {"start", "loop"} /\ iter = 0 /\ run > 1 /\ ~fresh) => strat = exitStrat
 FreshInit ==
-  (pc \in {"start", "loop"} /\ iter = 0 /\ fresh) => strat = StratInit(strat.kind)
+  (pc \in {"start", "loop"} /\ iter = 0 /\ fresh) => strat = AbsInit(strat.kind)
 
 \* every run returns
 Termination == <>(pc = "done")
